@@ -162,6 +162,58 @@ def parse_sources(src=None):
     return p
 
 
+def parse_split(src=None):
+    """The comparison operators and the loop shape of the file-splitting decision (genc.c:gc0ExternDecls,
+    gc0OverSMax; emit.c:emitTheC).  A text that is not recognised gives UnknownCmp (the proofs about the
+    agreement of the notions of `is split` then do not go through and the observation decides)."""
+    src = src or C.SRC
+    g = re.sub(r"\s+", "", _strip_comments(open(src + "/genc.c", errors="replace").read()))
+    e = re.sub(r"\s+", "", _strip_comments(open(src + "/emit.c", errors="replace").read()))
+    cm = {">": "Gt", ">=": "Ge", "<": "Lt", "<=": "Le"}
+    r = {"drift": []}
+    m = re.search(r"#definegc0OverSMax\(\)\(gcvSMax>0&&gcvNStmts(>=|>)gcvSMax\)", g)
+    r["over_cmp"] = cm[m.group(1)] if m else "UnknownCmp"
+    m = re.search(r"while\((?:gcvSMax>0&&)?nStmts(>=|>)gcvSMax(?:&&gcvSMax>0)?\)\{", g)
+    r["loop_cmp"] = cm[m.group(1)] if m else "UnknownCmp"
+    m = re.search(r"for\(i=n;i<nDefs-1&&stmtCounter(<=|<)gcvSMax;i\+\+\)\{", g)
+    r["inner_cmp"] = cm[m.group(1)] if m else None
+    m = re.search(r"if\(l(>=|>)1\)\{hfn=emitFileName\(finfo,FTYPENO_H\);", e)
+    r["emit_cmp"] = cm[m.group(1)] if m else "UnknownCmp"
+    shapes = {
+        "guess": r"if\(foamTag\(prog\)==FOAM_Prog\)\{nStmts\+=foamArgc\(prog->foamProg\.body\);nDefs\+=1;\}else\{nStmts\+=1;\}\}gcvNStmts=nStmts;",
+        "counter": r"if\(foamTag\(prog\)==FOAM_Prog\)\{Foambody=prog->foamProg\.body;stmtCounter\+=foamArgc\(body\)\+1;\}elsestmtCounter\+\+;",
+        "turn": r"n=i;nBrothers\+=1;gc0AddLine\(code,gc0GenModuleInitFun\(name,false,nBrothers\)\);.{0,200}?gc0AddLine\(allcode,ccoUnit\(ccExtD\)\);stmtCounter=0;nStmts-=gcvSMax;\}",
+        "start": r"n=0;stmtCounter=0;while\(",
+        "header_in": r"if\(!gc0OverSMax\(\)\)gc0AddLine\(code,ccoUnit\(ccExtH\)\);",
+        "header_out": r"allcode=listNReverse\(CCode\)\(allcode\);if\(gc0OverSMax\(\)\)gc0AddLine\(allcode,ccoUnit\(ccExtH\)\);",
+    }
+    for k, rx in shapes.items():
+        if not re.search(rx, g):
+            r["drift"].append(k)
+    eshapes = {"emit_names": r"nf=\(i>1\)\?i-1:i;sprintf\(fnnew\+k,\"%\.\*d\",FN_SUFF_LEN,nf\);",
+               "emit_select": r"if\(\(i\|\|!hout\)&&i<l\)\{", "emit_first": r"if\(i==1\|\|!hout\)fout=fileWrOpen\(fn\);"}
+    for k, rx in eshapes.items():
+        if not re.search(rx, e):
+            r["drift"].append(k)
+    if "turn" in r["drift"] or "start" in r["drift"]:
+        r["loop_cmp"] = "UnknownCmp"          # the loop is not the modelled counting loop any more
+    return r
+
+
+def generate_split(src=None):
+    r = parse_split(src)
+    if r["inner_cmp"] is None:
+        raise TranslateError("inner piece loop `stmtCounter < gcvSMax` not found in gc0ExternDecls")
+    L = ["(* GENERATED by props/c16.py from genc.c / emit.c of the current tree. Do not edit. *)",
+         "Require Import AV.CSplit.Model.", "",
+         "(* while (nStmts %s gcvSMax && gcvSMax > 0);  gc0OverSMax: gcvNStmts %s gcvSMax;" % (r["loop_cmp"], r["over_cmp"]),
+         "   for (...; stmtCounter %s gcvSMax; ...);  emitTheC: if (l %s 1) *)" % (r["inner_cmp"], r["emit_cmp"]),
+         "Definition split_ops : ops :=",
+         "  {| loop_cmp := %s; over_cmp := %s; inner_cmp := %s; emit_cmp := %s |}." % (
+             r["loop_cmp"], r["over_cmp"], r["inner_cmp"], r["emit_cmp"]), ""]
+    return "\n".join(L), r
+
+
 def coq_str(bs):
     return "[" + "; ".join(str(b) for b in bs) + "]"
 
@@ -1150,16 +1202,37 @@ def run(rep, tier):
     C.write_if_changed(C.COQ + "/Gen/CNameTbl.v", text)
     if p["drift"]:
         rep.notes.append("drift alarm: %s no longer has the modelled text; thorough correspondence forced" % p["drift"])
+    try:
+        stext, sp = generate_split()
+    except TranslateError as ex:
+        rep.violation("translator cannot read the splitting loop of genc.c any more: %s" % ex, {"error": str(ex)}, no_input=True)
+        return
+    C.write_if_changed(C.COQ + "/Gen/CSplitOps.v", stext)
+    if sp["drift"] or "UnknownCmp" in sp.values():
+        rep.notes.append("drift alarm (file splitting): shapes %s, operators %s" % (sp["drift"], {k: v for k, v in sp.items() if k != "drift"}))
     ctx = Ctx(rep, "thorough" if p["drift"] else tier, p)
+    split_tier = "thorough" if (sp["drift"] or "UnknownCmp" in sp.values()) else tier
+    state = {"split_done": False}
+
+    def searcher(log):
+        ctx.searcher(log)
+        # a broken proof about the splitting decision: look for a concrete (definition sizes, smax)
+        mk, _ = C.coq_make(["CSplit/Extract.vo"])
+        split_stage(rep, split_tier, mk, ctx)
+        state["split_done"] = True
     # 2. proof
-    ok = C.proof_stage(rep, ID, ["Props/Properties_C16.vo", "CName/Extract.vo"], "Props/Properties_C16.v", ctx.searcher)
+    ok = C.proof_stage(rep, ID, ["Props/Properties_C16.vo", "CName/Extract.vo", "CSplit/Extract.vo"],
+                       "Props/Properties_C16.v", searcher)
     model_ok = os.path.exists(C.COQ + "/CName/extracted/cname.ml")
+    smodel_ok = os.path.exists(C.COQ + "/CSplit/extracted/csplit.ml")
     if not ok:
-        # the extraction does not depend on the proofs: rebuild it so that the tie can still run
-        mk, _ = C.coq_make(["CName/Extract.vo"])
-        model_ok = mk
+        # the extractions do not depend on the proofs: rebuild them so that the ties can still run
+        model_ok, _ = C.coq_make(["CName/Extract.vo"])
+        smodel_ok, _ = C.coq_make(["CSplit/Extract.vo"])
     # 3. correspondence + oracles
     ctx.tie(model_ok)
+    if not state["split_done"]:
+        split_stage(rep, split_tier, smodel_ok, ctx)
     # 4. end to end (exploration)
     stats = e2e_stage(rep, tier, p)
     rep.add_cov(end_to_end=stats,
@@ -1173,7 +1246,10 @@ def run(rep, tier):
         "harness/cname/h.c #includes the current genc.c and links the rest of the compiler from the current tree",
         "names are byte strings over 1..255; bytes without an escape (blank, controls, >= 127) are dropped by genc.c: injectivity is "
         "stated for printable names only, names differing only in dropped bytes are separated by the hash prefix alone",
-        "NOT modelled: ccode.c printing, emit.c file splitting, old/standard prototypes, #line output, gcc: end-to-end runs only "
+        "file splitting: the decision (which definition goes to which part, header separate or not, how emitTheC maps the list to "
+        "files) is modelled (CSplit) and tied by observing -Fc -Csmax=N runs; the CONTENT of the parts (declarations, extern/static, "
+        "INIT bodies) is not",
+        "NOT modelled: ccode.c printing, old/standard prototypes, #line output, gcc: end-to-end runs only "
         "(level exploration for that part of the property)",
         "end-to-end limits other than the default link against runtime/libaldor whose C is regenerated from the shipped .ao files "
         "with the same -Cidlen (2 s); against the shipped libraries they cannot work (reported finding)",
@@ -1217,6 +1293,35 @@ def replay(path):
             bad = [int(x) for x in res[0].split()] != r["want"]
         print("VIOLATED" if bad else "holds")
         return 1 if bad else 0
+    if kind == "split":
+        exe = C.build_compiler()
+        d = C.scratch("c16splitr")
+        env = C.aldor_env()
+        if r.get("lib"):
+            with open("%s/%s.as" % (d, r["lib"][0]), "w", encoding="latin-1") as f:
+                f.write(r["lib"][1])
+            C.run(C.aldor_base_args(exe) + ["-fao", r["lib"][0] + ".as"], cwd=d, env=env, timeout=300)
+        with open("%s/%s.as" % (d, r["unit"]), "w", encoding="latin-1") as f:
+            f.write(r["src"])
+        C.run(C.aldor_base_args(exe) + ["-fao", "-ffm", r["unit"] + ".as"], cwd=d, env=env, timeout=300)
+        counts = fm_defs(open("%s/%s.fm" % (d, r["unit"]), errors="replace").read())
+        rc, files, diag = observe_split(exe, C.RB + "/aldor/src/aldor.conf", env, "%s/%s.ao" % (d, r["unit"]), r["unit"],
+                                        r["smax"], d + "/o")
+        bad = split_oracle(counts, r["smax"], rc, files)
+        print("unit %s: definitions %s (guessed statements %d), -Csmax=%d" % (
+            r["unit"], counts, sum(c if c != "o" else 1 for c in counts), r["smax"]))
+        print("files written (file: [CF indices], [INIT numbers]):", files)
+        if r.get("model"):
+            C.coq_make(["CSplit/Extract.vo"])
+            ml = C.build_ocaml("csplit", [C.COQ + "/CSplit/extracted/csplit.mli", C.COQ + "/CSplit/extracted/csplit.ml"],
+                               C.COQ + "/CSplit/driver.ml")
+            _, mres, _ = run_lines(ml, model_split_lines([(counts, r["smax"])]))
+            print("model:", mres)
+            if not bad and {k: (list(v[0]), list(v[1])) for k, v in canon_model(mres[0], counts).items()} != \
+                    {k: (list(v[0]), list(v[1])) for k, v in files.items()}:
+                bad = "model and compiler differ"
+        print("VIOLATED: " + bad if bad else "holds")
+        return 1 if bad else 0
     if kind == "e2e":
         text, p = generate()
         e = E2E(C.build_compiler())
@@ -1230,3 +1335,239 @@ def replay(path):
         return 1 if stage else 0
     print("replay file has no re-runnable input:", obj.get("what"))
     return 1
+
+
+# ------------------------------------------------------------------ file splitting: model vs observation of real -Fc -Csmax=N runs
+
+def parse_sexpr(txt):
+    tok = re.compile(r'\s*(\(|\)|"(?:\\.|[^"\\])*"|[^\s()"]+)')
+    pos, stack = 0, []
+    while True:
+        m = tok.match(txt, pos)
+        if not m:
+            return None
+        pos, t = m.end(), m.group(1)
+        if t == "(":
+            stack.append([])
+        elif t == ")":
+            x = stack.pop()
+            if not stack:
+                return x
+            stack[-1].append(x)
+        else:
+            stack[-1].append(t)
+
+
+def fm_defs(fm_text):
+    """top-level definitions of a unit as the guess loop of gc0ExternDecls sees them:
+    list of body sizes (int) for Progs, 'o' for anything else"""
+    u = parse_sexpr(fm_text)
+    ddef = [x for x in u if isinstance(x, list) and x and x[0] == "DDef"][0]
+    out = []
+    for d in ddef[1:]:
+        rhs = d[2]
+        if isinstance(rhs, list) and rhs and rhs[0] == "Prog":
+            out.append(len(rhs[-1]) - 1)
+        else:
+            out.append("o")
+    return out
+
+
+def sweep_limits(counts, rng, tier):
+    """limits aimed at the decisions of the piece loop: 0, 1, 2, the total +-2, total/m +-1 (where
+    floor and ceil-1 part counts differ), the running costs at which a piece closes +-1, a few random"""
+    total = sum(c if c != "o" else 1 for c in counts)
+    nd = sum(1 for c in counts if c != "o")
+    s = {0, 2, 3, total - 2, total - 1, total, total + 1, total + 2, 2 * total}
+    if total <= 400:
+        s.add(1)
+    for m in (2, 3, 4, 5):
+        s.update({total // m - 1, total // m, total // m + 1})
+    run = 0
+    for c in counts[1:nd]:
+        run += (c + 1)
+        s.update({run - 1, run, run + 1})
+    for _ in range(6 if tier == "quick" else 20):
+        s.add(rng.randint(2, total + 5))
+    lo = 1 if total <= 400 else 2
+    return sorted(x for x in s if x == 0 or x >= lo)
+
+
+def observe_split(exe, conf, env, ao, unit, smax, d):
+    """files written by `aldor -Csmax=N -Fc unit.ao` and the function / INIT definitions in each"""
+    os.makedirs(d, exist_ok=True)
+    rc, out, err = C.run([exe, "-Nfile=" + conf, "-Csmax=%d" % smax, "-Fc", ao], cwd=d, env=env, timeout=300)
+    files = {}
+    for f in sorted(os.listdir(d)):
+        if f == unit + ".h":
+            key = "h"
+        elif f == unit + ".c":
+            key = "c0"
+        else:
+            m = re.match(r"^%s(\d\d\d)\.c$" % re.escape(unit[:5]), f)
+            if not m:
+                continue
+            key = "c%d" % int(m.group(1))
+        txt = open(os.path.join(d, f), errors="replace").read()
+        cfs = [int(x) for x in re.findall(r"^CF(\d+)_?\w*\(", txt, re.M)]
+        inits = [int(x) for x in re.findall(r"^INIT__(\d+)_\w*\(", txt, re.M)]
+        files[key] = (cfs, inits)
+    shutil.rmtree(d, ignore_errors=True)
+    return rc, files, (out + err)[-300:]
+
+
+def split_oracle(counts, smax, rc, files):
+    """the property statement on what the compiler wrote (no model): None or a description"""
+    total = sum(c if c != "o" else 1 for c in counts)
+    nd = sum(1 for c in counts if c != "o")
+    if rc != 0:
+        return "aldor -Fc -Csmax=%d failed (rc=%d)" % (smax, rc)
+    cs = sorted((k for k in files if k != "h"), key=lambda k: int(k[1:]))
+    if "h" in files and (files["h"][0] or files["h"][1]):
+        return "the header <unit>.h holds function definitions CF%s / INIT %s" % (files["h"][0], files["h"][1])
+    want_split = smax > 0 and total > smax
+    if ("h" in files) != (len(cs) > 1):
+        return "<unit>.h %s but %d C file(s) were written" % ("exists" if "h" in files else "is missing", len(cs))
+    if ("h" in files) != want_split:
+        return "%d guessed statements, limit %d: the unit should%s be split but is%s" % (
+            total, smax, "" if want_split else " not", "" if "h" in files else " not")
+    placed = [i for k in cs for i in files[k][0]]
+    if sorted(placed) != list(range(nd)):
+        miss = sorted(set(range(nd)) - set(placed))
+        dup = sorted(set(i for i in placed if placed.count(i) > 1))
+        return "functions lost %s / written twice %s" % (miss, dup)
+    if files[cs[-1]][0][:1] != [0] or [i for i in placed if i != 0] != list(range(1, nd)):
+        return "definition order not preserved (pieces in file order, then the last part): %s" % placed
+    for n, k in enumerate(cs):
+        want = [0] if n == len(cs) - 1 else [n + 1]
+        if files[k][1] != want or k != "c%d" % n:
+            return "file %s (number %d of %d) defines INIT %s, expected %s" % (k, n, len(cs), files[k][1], want)
+    for k in cs[:-1]:
+        idx = files[k][0]
+        if sum(counts[i] + 1 for i in idx[:-1]) >= smax:
+            return "piece %s went on after reaching the limit: %s" % (k, idx)
+    return None
+
+
+def model_split_lines(counts_list):
+    return ["%d %s" % (smax, " ".join(str(c) for c in counts)) for counts, smax in counts_list]
+
+
+def canon_model(line, counts):
+    """driver output -> {file: (prog indices, init numbers)} comparable with observe_split"""
+    nd = sum(1 for c in counts if c != "o")
+    res = {}
+    parts = [x.strip() for x in line.split("|")][1:]
+    for part in parts:
+        f, _, e = part.partition("=")
+        if e == "H":
+            res[f] = ([], [])
+            continue
+        kind, _, ds = e.partition(":")
+        idx = [int(x) for x in ds.split(",") if x != ""]
+        idx = [i for i in idx if i < len(counts) and counts[i] != "o"]
+        res[f] = (idx, [0] if kind.startswith("M") else [int(kind[1:])])
+    return res
+
+
+SMALL_UNIT = """#include "aldor"
+#include "aldorio"
+import from MachineInteger;
+
+sq(n: MachineInteger): MachineInteger == n * n;
+
+tri(n: MachineInteger): MachineInteger == {
+	s: MachineInteger := 0;
+	for i: MachineInteger in 1..n repeat s := s + i;
+	s
+}
+
+stdout << sq 7 << " " << tri 10 << newline;
+"""
+
+
+def split_units(tier):
+    """(unit name, directory with <unit>.ao, counts) for the units whose splitting is observed"""
+    exe = C.build_compiler()
+    root = C.scratch("c16split")
+    env = C.aldor_env()
+    base = C.aldor_base_args(exe)
+    progs = [gen_program(C.rng("c16-prog-%d" % k), "s%dp%d" % (C.seed() % 100000, k)) for k in range(1 if tier == "quick" else 3)]
+    units = []
+    with open(root + "/spl.as", "w") as f:
+        f.write(SMALL_UNIT)
+    todo = [("spl", None)]
+    for pr in progs:
+        for nm, key in ((pr["libname"], "lib"), (pr["mainname"], "main")):
+            with open("%s/%s.as" % (root, nm), "w", encoding="latin-1") as f:
+                f.write(pr[key])
+            todo.append((nm, pr))
+    for nm, pr in todo:
+        rc, out, err = C.run(base + ["-fao", "-ffm", nm + ".as"], cwd=root, env=env, timeout=300)
+        if rc != 0 or not os.path.exists("%s/%s.fm" % (root, nm)):
+            raise C.BuildError("cannot compile unit %s for the split observation: %s" % (nm, (out + err)[-300:]))
+        counts = fm_defs(open("%s/%s.fm" % (root, nm), errors="replace").read())
+        units.append({"name": nm, "dir": root, "counts": counts,
+                      "src": open("%s/%s.as" % (root, nm), encoding="latin-1").read(),
+                      "lib": (pr["libname"], pr["lib"]) if pr and nm == pr["mainname"] else None})
+    return exe, env, units
+
+
+def split_stage(rep, tier, model_ok, ctx):
+    """tie of the splitting model: extracted model vs what the compiler built from the current tree
+    writes for -Fc -Csmax=N, N swept around every decision boundary; oracle on every observation."""
+    exe, env, units = split_units(tier)
+    conf = C.RB + "/aldor/src/aldor.conf"
+    rng = C.rng("c16-split")
+    jobs = []
+    for u in units:
+        for n in sweep_limits(u["counts"], rng, tier):
+            jobs.append((u, n))
+
+    def one(j):
+        u, n = jobs[j]
+        return observe_split(exe, conf, env, "%s/%s.ao" % (u["dir"], u["name"]), u["name"], n, "%s/o-%s-%d" % (u["dir"], u["name"], n))
+    with concurrent.futures.ThreadPoolExecutor(C.NCPU) as ex:
+        obs = list(ex.map(one, range(len(jobs))))
+    mres = None
+    if model_ok:
+        ml = C.build_ocaml("csplit", [C.COQ + "/CSplit/extracted/csplit.mli", C.COQ + "/CSplit/extracted/csplit.ml"],
+                           C.COQ + "/CSplit/driver.ml")
+        rc, mres, merr = run_lines(ml, model_split_lines([(u["counts"], n) for u, n in jobs]))
+        if len(mres) != len(jobs):
+            rep.violation("split model driver failed: %d of %d results" % (len(mres), len(jobs)), {"stderr": merr[-300:]}, no_input=True)
+            mres = None
+    nviol, nmis, first_mis = 0, 0, None
+    for j, ((u, n), (rc, files, diag)) in enumerate(zip(jobs, obs)):
+        bad = split_oracle(u["counts"], n, rc, files)
+        total = sum(c if c != "o" else 1 for c in u["counts"])
+        if bad:
+            nviol += 1
+            if nviol <= 4:
+                rep.violation("-Csmax=%d on unit %s (%d guessed statements, definitions %s): %s" % (
+                    n, u["name"], total, " ".join(map(str, u["counts"]))[:160], bad),
+                    {"kind": "split", "unit": u["name"], "src": u["src"], "lib": u["lib"], "smax": n, "counts": u["counts"],
+                     "files": {k: list(v) for k, v in files.items()}},
+                    key="split:%s:total=%d:smax=%d" % (u["name"], total, n))
+        if mres is not None:
+            want = canon_model(mres[j], u["counts"])
+            got = {k: (list(v[0]), list(v[1])) for k, v in files.items()}
+            if {k: (list(v[0]), list(v[1])) for k, v in want.items()} != got:
+                nmis += 1
+                if first_mis is None:
+                    first_mis = (u, n, mres[j], got)
+    if nmis:
+        u, n, ml_line, got = first_mis
+        rep.violation("correspondence csplit no longer checks: model and compiler differ on -Csmax=%d, definitions %s: model %s, "
+                      "compiler wrote %s; %d of %d observations differ; the oracle found %s" % (
+                          n, " ".join(map(str, u["counts"]))[:160], ml_line[:200], str(got)[:200], nmis, len(jobs),
+                          "%d property failures (reported above)" % nviol if nviol else "no property failure"),
+                      {"kind": "split", "unit": u["name"], "src": u["src"], "lib": u["lib"], "smax": n, "counts": u["counts"], "model": ml_line},
+                      no_input=(nviol == 0), key=None if nviol == 0 else "split-mismatch:%s:smax=%d" % (u["name"], n))
+    rep.add_cov(split_observations=len(jobs), split_units={u["name"]: sum(c if c != "o" else 1 for c in u["counts"]) for u in units},
+                split_validated_against_model=len(jobs) if mres is not None else 0,
+                split_rule="for each unit the definition sizes are read from its -Ffm output; `aldor -Csmax=N -Fc unit.ao` (compiler built "
+                           "from the current tree) is observed for N in {0,1,2,3, total-2..total+2, 2*total, total/m-1..+1 (m=2..5), every "
+                           "piece-closing running cost -1..+1, random}: which file defines which CFn / INIT__k; compared with the extracted "
+                           "model; oracle (header/one-file agreement, each function once, order, INIT numbering, limit) on every observation")
+    return nviol, nmis
